@@ -50,11 +50,6 @@ def testifyFns (m : MethodOut) (retName : String) : List EmitFn :=
     ⟨"Return", ["_c"], m.results.map (·.name), ty⟩,
     ⟨"RunAndReturn", ["_c", "run"], [], ty⟩ ]
 
-def exportedName (s : String) : String :=
-  match Mockery.Tmpl.exported Mockery.Tmpl.tableOps Mockery.Generated.golintInitialismsB s.toUTF8.toList with
-  | some b => (String.fromUTF8? ⟨b.toArray⟩).getD s
-  | none => s
-
 /-- the functions (and the record struct) the matryer template emits for one method -/
 def matryerFns (m : MethodOut) : List EmitFn :=
   let ps := m.params.map (·.name)
